@@ -641,6 +641,15 @@ def run(ctx, spec):
             if rng.random() < 0.06:
                 raw_enc.append(enc(MeshPatt(Perm(), [(0, 0)])))
                 ctx.count("k5_inputs")
+            if rng.random() < 0.12:
+                # every element a mesh pattern WITHOUT shading (same class as the classical patterns, other object kind)
+                raw_enc = [enc(MeshPatt(Perm(rng.sample(range(k), k)), [])) for k in (rng.randint(1, 4) for _ in range(rng.randint(1, 3)))]
+                ctx.count("bases.unshaded_mesh_only")
+            elif rng.random() < 0.12:
+                # a shaded point next to longer elements
+                cells = [[0, 0], [0, 1], [1, 0], [1, 1]]
+                raw_enc = [{"cls": "MeshPatt", "p": [0], "s": sorted(rng.sample(cells, rng.randint(1, 4)))}] + [rand_perm(rng, rng.randint(2, 3)) for _ in range(rng.randint(1, 2))]
+                ctx.count("bases.shaded_point_plus_longer")
             rng.shuffle(raw_enc)
             for _ in range(spec["hist"]):
                 if rng.random() < 0.7:
